@@ -269,6 +269,7 @@ BASE_POINT = {
     'psem': 'MTS',        # D6
     'rsem': 'allmts',     # D7: allmts | allsts | firstmts | firststs
     'fac': 'create',      # D8
+    'evorder': 'grouped', # D4b: grouped (ins then outs) | interleaved (in,out,in,out,...) | outsfirst
     'mc': 'none',         # D9: none | p0:<granting index> | p1:<granting index>
     'kind': 'component',  # D10
     'prefix': '',         # D11: '' | 'Other.Project'
@@ -281,6 +282,7 @@ DIMS = {
     'nprov': [0, 1, 2], 'nreq': [0, 1, 2], 'ninj': [0, 1],
     'share': [True, False],
     'menu': ['full', 'empty', 'inonly', 'outonly'],
+    'evorder': ['grouped', 'interleaved', 'outsfirst'],
     'names': ['plain', 'caps', 'under'],
     'evnames': ['plain', 'acqfree', 'swapped'],
     'psem': ['MTS', 'STS'],
@@ -308,6 +310,23 @@ def full_menu():
             ['O0', 'out', ['void'], []],
             ['O2', 'out', ['void'], [['a', ['T1'], 'in'], ['b', ['T3'], 'in']]],
             ['OSame', 'out', ['void'], [['a', ['T3'], 'in'], ['b', ['T3'], 'in']]]]
+
+
+def reorder(events, evorder):
+    """Declaration order of the events inside the interface."""
+    ins = [e for e in events if e[1] == 'in']
+    outs = [e for e in events if e[1] == 'out']
+    if evorder == 'outsfirst':
+        return outs + ins
+    if evorder == 'interleaved':
+        res = []
+        for i in range(max(len(ins), len(outs))):
+            if i < len(ins):
+                res.append(ins[i])
+            if i < len(outs):
+                res.append(outs[i])
+        return res
+    return ins + outs
 
 
 def menu_events(menu):
@@ -392,6 +411,7 @@ def build_model(pt):
 
     def make_itf(name, is_mc):
         events = mc_events(pt['evnames']) if is_mc else menu_events(pt['menu'])
+        events = reorder(events, pt.get('evorder', 'grouped'))
         interfaces.append(['interface', name, [list(t) for t in types], events])
 
     ports = []
@@ -487,3 +507,39 @@ def points(k, base=None):
         if key not in seen:
             seen.add(key)
             yield pt, combo
+
+
+def mc_base_point():
+    pt = dict(BASE_POINT)
+    pt['mc'] = 'p0:0'
+    return pt
+
+
+def semantics_origin_cross():
+    """Every STS/MTS assignment expressible for 1 provides + 2 requires ports x both origins."""
+    out = []
+    for psem in DIMS['psem']:
+        for rsem in DIMS['rsem']:
+            for fac in DIMS['fac']:
+                pt = dict(BASE_POINT)
+                pt.update({'psem': psem, 'rsem': rsem, 'fac': fac, 'nreq': 2})
+                if valid_point(pt):
+                    out.append(pt)
+    return out
+
+
+def lab_points(k):
+    """Point set shared by all lab properties: deviations from the base point and from the
+    multi-client base point, plus the semantics x origin cross product."""
+    seen, out = set(), []
+    for pt, _combo in list(points(k)) + list(points(k, mc_base_point())):
+        key = point_id(pt)
+        if key not in seen:
+            seen.add(key)
+            out.append(pt)
+    for pt in semantics_origin_cross():
+        key = point_id(pt)
+        if key not in seen:
+            seen.add(key)
+            out.append(pt)
+    return out
